@@ -99,8 +99,8 @@ def tla_scn(scn: dict) -> dict:
         "cache": bool(s["cache"]),
         "maxloop": s["maxloop"],
         "debug": bool(s.get("debug")),
-        # real-time runs: K = ticks per simulation step (rt_factor * time_resolution seconds), strict flag, instant = all step durations zero
-        "rt": ({"on": True, "K": int(round(s["rt"]["rt_factor"] * s["rt"].get("time_resolution", 1.0) * 1024)), "strict": bool(s["rt"].get("strict")),
+        # real-time runs: K = trace ticks per simulation step (always 1024, see drive.Ctx), strict flag, instant = all step durations zero
+        "rt": ({"on": True, "K": 1024, "strict": bool(s["rt"].get("strict")),
                 "instant": bool(s["rt"].get("instant"))} if s.get("rt") else {"on": False, "K": 0, "strict": False, "instant": False}),
     }
 
@@ -115,3 +115,25 @@ def common_depth(ga, gb) -> int:
 
 def can_weak(ga, gb) -> bool:
     return common_depth(ga, gb) >= 2
+
+
+ODD_SIDS = {"Sa": "S%a", "Sb": "S-b", "Sc": "S c", "Sd": "S{d}", "Se": "S~e", "Sf": "S%%f", "Sg": "S+g", "Sh": "S$h", "Si": "S#i", "Sj": "S@j",
+            "Sk": "S&k", "Sl": "S=l"}
+
+
+def rename_sids(scn: dict, mapping=None) -> dict:
+    """The same scenario with user-chosen simulator ids that contain unusual (legal) characters: %, blanks, braces, ...
+    (no dots - mosaik itself separates simulator id and entity id by the first dot - and nothing JSON/TLA+ strings cannot hold)."""
+    m = mapping or ODD_SIDS
+    s = copy.deepcopy(scn)
+    for sim in s["sims"]:
+        sim["sid"] = m.get(sim["sid"], sim["sid"])
+    for c in s["conns"]:
+        old_src = c["src"]
+        c["src"], c["dst"] = m.get(c["src"], c["src"]), m.get(c["dst"], c["dst"])
+        if isinstance(c.get("init"), str) and c["init"].startswith(f"init.{old_src}."):
+            c["init"] = f"init.{c['src']}." + c["init"][len(f"init.{old_src}."):]
+    if s.get("order"):
+        s["order"] = [m.get(x, x) for x in s["order"]]
+    return s
+
